@@ -62,6 +62,7 @@ Definition canon_slot (rec : msg -> bool) (unions : list (Z * sval)) (f : field)
       (sval_eqb_shallow v (init_cell f) ||
        (canon_cell rec f v && match zeroish f v with Ok false => true | _ => false end))
   | (LOptional | LNone), SUnion g =>
+      match f_quant f with QCase g' => Nat.eqb g g' | _ => false end &&
       with_nth (fun cv : Z * sval => if fst cv =? f_id f then canon_cell rec f (snd cv) else true) false unions g
   | _, _ => false
   end.
@@ -118,9 +119,24 @@ Definition desc_ok (nenv : nat) (md : mdesc) : bool :=
                Nat.eqb (length rs) (length (md_ranges md)) &&
                forallb (fun p => (start_value (fst p) =? start_value (snd p)) && (orig_index (fst p) =? orig_index (snd p)))
                        (combine rs (md_ranges md))
-  end.
+  end &&
+  (* implicit-presence fields start out holding the zero value *)
+  forallb (fun f => match f_label f with
+                    | LNone => match zeroish f (init_cell f) with Ok true => true | _ => false end
+                    | _ => true
+                    end) (md_fields md).
 
 Definition env_ok (E : env) : bool := forallb (desc_ok (length E)) E.
+
+(* every union either selects one of its members or is in its initial state *)
+Fixpoint canon_unions (fs : list field) (g : nat) (us : list (Z * sval)) : bool :=
+  match us with
+  | [] => true
+  | cv :: t =>
+      (existsb (fun f => (f_id f =? fst cv) && match f_quant f with QCase g' => Nat.eqb g g' | _ => false end) fs
+       || ((fst cv =? 0) && sval_eqb_shallow (snd cv) (VWord 0))) &&
+      canon_unions fs (S g) t
+  end.
 
 Section Canon.
 Variable E : env.
@@ -133,10 +149,7 @@ Fixpoint canon_msg (m : msg) : bool :=
       | Some md =>
           Nat.eqb (length unions) (md_n_oneofs md) &&
           canon_slots canon_msg unions (md_fields md) slots &&
-          (* a union whose case selects no member of the group must be the initial one *)
-          forallb (fun cv : Z * sval =>
-                     existsb (fun f => f_id f =? fst cv) (md_fields md) ||
-                     ((fst cv =? 0) && sval_eqb_shallow (snd cv) (VWord 0))) unions &&
+          canon_unions (md_fields md) 0 unions &&
           forallb (canon_unk (map f_id (md_fields md))) unk
       end
   end.
